@@ -319,15 +319,15 @@ def load_known():
 
 def write_replay(pid: str, seed: int, n: int, payload: dict) -> Path:
     d = VERIF / "replays"
-    d.mkdir(exist_ok=True)
+    d.mkdir(parents=True, exist_ok=True)
     p = d / f"{pid}-{seed}-{n}.json"
     p.write_text(json.dumps(payload, indent=1, default=str))
     return p
 
 
 def write_evidence(ctx: Ctx, level: str, coverage: dict, violations: int):
-    d = VERIF / "evidence"
-    d.mkdir(exist_ok=True)
+    d = Path(os.environ.get("VERIF_EVIDENCE_DIR") or (VERIF / "evidence"))
+    d.mkdir(parents=True, exist_ok=True)
     ev = {
         "property_id": ctx.pid,
         "tier": ctx.tier,
